@@ -144,6 +144,11 @@ OpsC05b ==  \* the refresh-token ISSUANCE rule in every flow that can issue one:
   \cup (IF CanMint THEN {Refresh(st.S.rt[j].client, "ok", j, <<>>, <<>>) : j \in RTs} ELSE {})
   \cup {ClientChange(c, f[1], f[2]) : c \in {"A", "P"}, f \in {<<"rm_grant", "refresh_token">>, <<"restore", "">>}}
 
+OpsC05c ==  \* the life of ONE grant across generations while the client's registration changes underneath it
+  (IF CanMint /\ Count(st.S.rt) = 0 THEN {Password("A", "ok", "ok", <<"offline", "a", "b">>, <<AudA>>)} ELSE {})
+  \cup (IF CanMint THEN {Refresh("A", "ok", j, xs, <<>>) : j \in {x \in RTs : RTActive(st, x)}, xs \in {<<>>, <<"a">>}} ELSE {})
+  \cup {ClientChange("A", f[1], f[2]) : f \in {<<"rm_scope", "b">>, <<"rm_aud", "*">>, <<"rm_grant", "refresh_token">>, <<"restore", "">>}}
+
 OpsC07 ==   \* expiry of every stateful credential kind
   (IF CanAuthz THEN {Authz("A", rt, Full, Full, <<>>, "sent", "none") : rt \in {"code", "code_token", "token"}} ELSE {})
   \cup (IF CanMint THEN {Redeem(Owner(k), "ok", k, "same", "none", <<>>, <<>>) : k \in {x \in Codes : st.S.code[x].active}} ELSE {})
@@ -162,7 +167,7 @@ OpsC08 ==   \* revocation: every token, every hint, owner / foreign / unauthenti
   \cup (IF CanMint THEN {Password("B", "ok", "ok", <<"offline", "a">>, <<>>)} ELSE {})
   \cup (IF CanMint THEN {Refresh(st.S.rt[j].client, "ok", j, <<>>, <<>>) : j \in RTs} ELSE {})
   \cup {Revoke(c, a, "rt", j, h) : j \in RTs, c \in {"A", "B"}, a \in {"ok", "bad", "none"}, h \in {"rt", "at", "bad", "none"}}
-  \cup {Revoke(c, a, "at", i, h) : i \in ATs, c \in {"A", "B"}, a \in {"ok", "bad"}, h \in {"rt", "at", "none"}}
+  \cup {Revoke(c, a, "at", i, h) : i \in ATs, c \in {"A", "B"}, a \in {"ok", "bad"}, h \in {"rt", "at", "bad", "none"}}
   \cup {Revoke("P", "ok", "rt", j, h) : j \in RTs, h \in {"rt", "none"}}      \* a foreign PUBLIC client (identified, no secret)
   \cup {Revoke("P", "ok", "at", i, h) : i \in ATs, h \in {"at", "none"}}
   \cup {Revoke("A", "ok", "unk", 0, h) : h \in {"rt", "none"}}
@@ -212,7 +217,7 @@ OpsC17 ==   \* pushed authorization requests
         \cup {Push("A", "ok", "code", <<"a">>, <<>>, "sent", "request_uri", u) : u \in Pars} ELSE {})
   \cup (IF CanAuthz THEN
         {UsePar(c, "own", u, f) : c \in {"A", "B"}, u \in Pars,
-             f \in {"none", "redirect_uri", "response_type", "scope", "state", "audience"}}
+             f \in {"none", "redirect_uri", "response_type", "scope", "state", "audience", "response_mode"}}
         \cup {UsePar("A", kind, 0, "none") : kind \in {"unknown", "foreign_prefix", "absent"}}
         \cup {Authz("A", "code", <<"a">>, <<"a">>, <<>>, "sent", "none")} ELSE {})
   \cup (IF CanMint THEN {Redeem(Owner(k), "ok", k, "same", "none", <<>>, <<>>) : k \in {x \in Codes : st.S.code[x].active}} ELSE {})
@@ -226,7 +231,7 @@ OpsC17b ==  \* the life of ONE request_uri over a longer history: use, second us
 
 Ops ==
   CASE Family = "C01" -> OpsC01 [] Family = "C01b" -> OpsC01b [] Family = "C02" -> OpsC02 [] Family = "C03" -> OpsC03
-    [] Family = "C04" -> OpsC04 [] Family = "C04b" -> OpsC04b [] Family = "C05" -> OpsC05 [] Family = "C05b" -> OpsC05b [] Family = "C07" -> OpsC07
+    [] Family = "C04" -> OpsC04 [] Family = "C04b" -> OpsC04b [] Family = "C05" -> OpsC05 [] Family = "C05b" -> OpsC05b [] Family = "C05c" -> OpsC05c [] Family = "C07" -> OpsC07
     [] Family = "C08" -> OpsC08 [] Family = "C08b" -> OpsC08b [] Family = "C09" -> OpsC09 [] Family = "C16" -> OpsC16 [] Family = "C16b" -> OpsC16b
     [] Family = "C17" -> OpsC17 [] Family = "C17b" -> OpsC17b
     [] OTHER -> OpsC01 \cup OpsC04 \cup OpsC08 \cup OpsC16 \cup OpsC17
